@@ -52,6 +52,11 @@ func c09E2E(c *Ctx) {
 			listener = []string{"http", "fasthttp", "https", "tcp", "tls", "quic"}[(i/20)%6]
 			up, a = "pipe", -1
 			name = fmt.Sprintf("ok-n1-uexact%d-s%dx%d.pipe.test.", 65508+(i/20*5)%28, i, c.Seed)
+			if (i/120)%2 == 0 {
+				// ... made of a single record (a 64 KiB TXT RRset of one record): name compression saves
+				// nothing, the compressed encoding is as long as the uncompressed one
+				name = fmt.Sprintf("ok-n0-fat-uexact%d-s%dx%d.pipe.test.", 65508+(i/20*5)%28, i, c.Seed)
+			}
 		}
 		q := new(dns.Msg)
 		q.Id = uint16(r.Intn(65536))
